@@ -460,6 +460,23 @@ def c03(sc, V):
                     if T is not None and t_start > t0b + T + 100:
                         f.append({"sig": "sigkill-late", "step": s.n,
                                   "msg": "pid %d SIGKILLed at least %d ms after the stop signal, graceful_timeout %d ms" % (pid, t_start - t0b, T)})
+        # a worker that outlives its grace period gets SIGKILL: Process.stop()'s terminate() (the trace marks it
+        # "t") only ever finds a live process when kill_process gave up waiting without escalating
+        for i, l in enumerate(s.lines):
+            if l[0] == "sig" and l[2] == 15 and l[3] == "r" and l[4] == "t" and l[1] in owner and l[1] in stop_sent:
+                wn_real = next((w["name"] for w in s.before.watchers if w["name"].replace(" ", "_") == owner[l[1]]), owner[l[1]])
+                if not _sigkilled_before(V, s.n, l[1]) and wn_real not in veto and not _after_spawn_failed(V, s.n, l[1]):
+                    f.append({"sig": "no-sigkill-after-grace-period", "step": s.n,
+                              "msg": "the wait for pid %d ended with the worker alive and no SIGKILL was sent" % l[1]})
+        # a kill request that names a signal: that is the stop signal its targets get
+        if s.cmd() == "kill" and isinstance(s.props().get("signum"), int) and not isinstance(s.props().get("signum"), bool) \
+                and 0 < s.props().get("signum") < 65 and isinstance(s.props().get("name"), str):
+            wb = next((w for w in s.before.watchers if w["name"].lower() == s.props()["name"].lower()), None)
+            own = set(q[0] for q in wb["procs"]) if wb else set()
+            for l in s.lines:
+                if l[0] == "sig" and l[4] == "" and l[1] in own and l[2] not in (s.props()["signum"], 9):
+                    f.append({"sig": "requested-stop-signal-not-used", "step": s.n,
+                              "msg": "kill asked for signal %d, pid %d got %d" % (s.props()["signum"], l[1], l[2])})
         # stop_children: the stop signal and the final SIGKILL reach the direct children too
         for i, l in enumerate(s.lines):
             if l[0] == "sig" and l[4] == "" and l[3] == "r" and l[1] in owner:
